@@ -3,6 +3,7 @@ package h
 import (
 	"encoding/json"
 	"fmt"
+	"os"
 	"sort"
 	"strings"
 
@@ -28,6 +29,7 @@ type Profile struct {
 	Backfill    int // weight of dump-feed snapshot checks
 	FeedsMax    int // number of live feeds to start (0..FeedsMax)
 	MultiHandle bool
+	NoBuilders  bool // do not emit state-building operations
 	KeepFeeds   bool // the oracle needs the configured feeds (minimisation must not drop them)
 	Extra       []ExtraAction
 	Prefix      func(rt *rapid.T, r *Run) []Op // steps every history starts with
@@ -60,7 +62,15 @@ func weighted(rt *rapid.T, w map[string]int, label string) string {
 			total += v
 		}
 	}
-	sort.Strings(keys)
+	// rapid's integer generator favours small values; ordering the alternatives by a per-process
+	// hash (VERIF_SEED + shard) lets different shards favour different alternatives
+	sort.Slice(keys, func(i, j int) bool {
+		hi, hj := fnvString(orderSalt+keys[i]), fnvString(orderSalt+keys[j])
+		if hi != hj {
+			return hi < hj
+		}
+		return keys[i] < keys[j]
+	})
 	n := rapid.IntRange(0, total-1).Draw(rt, label)
 	for _, k := range keys {
 		n -= w[k]
@@ -70,6 +80,8 @@ func weighted(rt *rapid.T, w map[string]int, label string) string {
 	}
 	return keys[len(keys)-1]
 }
+
+var orderSalt = os.Getenv("VERIF_SEED") + "/" + os.Getenv("VERIF_SHARD_INDEX") + "/"
 
 func pick[T any](rt *rapid.T, xs []T, label string) T {
 	return xs[rapid.IntRange(0, len(xs)-1).Draw(rt, label)]
@@ -328,16 +340,22 @@ func genConfig(rt *rapid.T, pr *Profile) Config {
 
 // ---- operations -----------------------------------------------------------------------------
 
-var priorClasses = []string{"absent", "live", "liveX", "tomb", "tombX"}
+// (rapid favours small indexes: the rarer classes come first)
+var priorClasses = []string{"tombX", "liveX", "tomb", "live", "absent"}
 
 // genTarget picks collection and key, aiming at a drawn prior-state class.
 func genTarget(rt *rapid.T, w *World, pr *Profile) (int, string) {
-	c := pickColl(rt, w, "coll")
+	c, key, _, _ := genTargetAimed(rt, w, pr)
+	return c, key
+}
+
+func genTargetAimed(rt *rapid.T, w *World, pr *Profile) (c int, key string, want string, found bool) {
+	c = pickColl(rt, w, "coll")
 	keys := pr.Keys
 	if len(keys) == 0 {
 		keys = defaultKeys
 	}
-	want := pick(rt, priorClasses, "aim")
+	want = pick(rt, priorClasses, "aim")
 	var cands []string
 	for _, k := range keys {
 		if w.Model.Get(c, k).Class() == want {
@@ -345,9 +363,9 @@ func genTarget(rt *rapid.T, w *World, pr *Profile) (int, string) {
 		}
 	}
 	if len(cands) > 0 {
-		return c, pick(rt, cands, "key.aimed")
+		return c, pick(rt, cands, "key.aimed"), want, true
 	}
-	return c, pick(rt, keys, "key.any")
+	return c, pick(rt, keys, "key.any"), want, false
 }
 
 // GenOp draws one document operation against the current model state.
@@ -367,6 +385,99 @@ func GenOp(rt *rapid.T, w *World, pr *Profile) Op {
 	}
 }
 
+// genBuilder: when no key is in the prior-state class the generator aims at, emit an operation that
+// creates such a key (so that later steps find documents with xattrs, tombstones with xattrs, ...).
+func genBuilder(rt *rapid.T, w *World, pr *Profile, c int, want string) (Op, bool) {
+	keys := pr.Keys
+	if len(keys) == 0 {
+		keys = defaultKeys
+	}
+	in := func(classes ...string) []string {
+		var out []string
+		for _, k := range keys {
+			cl := w.Model.Get(c, k).Class()
+			for _, x := range classes {
+				if cl == x {
+					out = append(out, k)
+				}
+			}
+		}
+		return out
+	}
+	allowed := func(kind string) bool {
+		if pr.Ops == nil {
+			return true
+		}
+		return pr.Ops[kind] > 0
+	}
+	small := w.Cfg.MaxDocSize > 0
+	switch want {
+	case "liveX":
+		if ks := in("live"); len(ks) > 0 && allowed("SetXattrs") {
+			return Op{K: "SetXattrs", C: c, Key: pick(rt, ks, "build.key"), X: genXattrSet(rt, 1, 3, false)}, true
+		}
+		if ks := in("absent"); len(ks) > 0 && allowed("WriteWithXattrs") {
+			return Op{K: "WriteWithXattrs", C: c, Key: pick(rt, ks, "build.key"), Body: genBody(rt, "obj", small), X: genXattrSet(rt, 1, 3, false), Cas: CasSpec{Kind: "zero"}, NilOpts: true}, true
+		}
+	case "tombX":
+		if ks := in("liveX"); len(ks) > 0 {
+			k := pick(rt, ks, "build.key")
+			switch pick(rt, []string{"Delete", "Update", "WriteCas", "WriteTombstoneWithXattrs", "DeleteWithXattrs"}, "build.del") {
+			case "Delete":
+				if allowed("Delete") {
+					return Op{K: "Delete", C: c, Key: k}, true
+				}
+			case "Update":
+				if allowed("Update") {
+					return Op{K: "Update", C: c, Key: k, Cb: "delete"}, true
+				}
+			case "WriteCas":
+				if allowed("WriteCas") {
+					return Op{K: "WriteCas", C: c, Key: k, Cas: CasSpec{Kind: "current"}}, true
+				}
+			case "WriteTombstoneWithXattrs":
+				if allowed("WriteTombstoneWithXattrs") {
+					return Op{K: "WriteTombstoneWithXattrs", C: c, Key: k, Cas: CasSpec{Kind: "current"}, X: genXattrSet(rt, 1, 2, false), DeleteBody: true, NilOpts: true}, true
+				}
+			case "DeleteWithXattrs":
+				if allowed("DeleteWithXattrs") {
+					return Op{K: "DeleteWithXattrs", C: c, Key: k}, true
+				}
+			}
+		}
+		if ks := in("tomb"); len(ks) > 0 && allowed("SetXattrs") {
+			return Op{K: "SetXattrs", C: c, Key: pick(rt, ks, "build.key"), X: genXattrSet(rt, 1, 2, false)}, true
+		}
+	case "tomb":
+		if ks := in("live"); len(ks) > 0 {
+			k := pick(rt, ks, "build.key")
+			switch pick(rt, []string{"Delete", "Remove", "Update", "WriteCas"}, "build.del") {
+			case "Delete":
+				if allowed("Delete") {
+					return Op{K: "Delete", C: c, Key: k}, true
+				}
+			case "Remove":
+				if allowed("Remove") {
+					return Op{K: "Remove", C: c, Key: k, Cas: CasSpec{Kind: "current"}}, true
+				}
+			case "Update":
+				if allowed("Update") {
+					return Op{K: "Update", C: c, Key: k, Cb: "delete"}, true
+				}
+			case "WriteCas":
+				if allowed("WriteCas") {
+					return Op{K: "WriteCas", C: c, Key: k, Cas: CasSpec{Kind: "current"}}, true
+				}
+			}
+		}
+	case "live":
+		if ks := in("absent", "tomb"); len(ks) > 0 && allowed("Set") {
+			return Op{K: "Set", C: c, Key: pick(rt, ks, "build.key"), Body: genBody(rt, "json", small), Exp: genExp(rt, pr.ExpW), NilOpts: true}, true
+		}
+	}
+	return Op{}, false
+}
+
 func genOp1(rt *rapid.T, w *World, pr *Profile) Op {
 	jsonBodyOverride = pr.JSONBody
 	defer func() { jsonBodyOverride = nil }()
@@ -375,7 +486,15 @@ func genOp1(rt *rapid.T, w *World, pr *Profile) Op {
 		ops = allDocOps
 	}
 	kind := weighted(rt, ops, "op")
-	c, key := genTarget(rt, w, pr)
+	c, key, want, found := genTargetAimed(rt, w, pr)
+	if !found && !pr.NoBuilders && chance(rt, 70, "build") {
+		if bop, ok := genBuilder(rt, w, pr, c, want); ok {
+			if len(w.Handles) > 1 {
+				bop.H = rapid.IntRange(0, len(w.Handles)-1).Draw(rt, "h")
+			}
+			return bop
+		}
+	}
 	op := Op{K: kind, C: c, Key: key}
 	if len(w.Handles) > 1 {
 		op.H = rapid.IntRange(0, len(w.Handles)-1).Draw(rt, "h")
